@@ -192,6 +192,22 @@ func applyBehaviour(c killCase, sp *startedPlugin, stub *vp.Stub) error {
 	case "busy":
 		go stub.Do(vp.Cmd{Op: "sleep", Ms: 5000})
 		time.Sleep(50 * time.Millisecond)
+	case "brokerbusy_h":
+		// the host serves a brokered connection on which the plugin has a call in flight when Kill comes
+		stub.Broker.ServeWho(7001, "h")
+		if r, err := stub.Do(vp.Cmd{Op: "dialkeep", ID: 7001}); err != nil || !r.OK {
+			return fmt.Errorf("brokerbusy_h: dialkeep: %v %s", err, r.Err)
+		}
+		stub.Do(vp.Cmd{Op: "slowkept", ID: 7001, Ms: 8000})
+		time.Sleep(100 * time.Millisecond)
+	case "brokerbusy_p":
+		// the plugin serves one, and the host has the call in flight
+		stub.Do(vp.Cmd{Op: "serve", ID: 7002, S: "p"})
+		if _, err := stub.Broker.DialKeep(7002); err != nil {
+			return fmt.Errorf("brokerbusy_p: dialkeep: %v", err)
+		}
+		stub.Broker.SlowKept(7002, 8000)
+		time.Sleep(100 * time.Millisecond)
 	case "frozen":
 		syscall.Kill(sp.pid, syscall.SIGSTOP)
 		time.Sleep(50 * time.Millisecond)
